@@ -215,14 +215,14 @@ def gen_pipe(seed: int, n: int) -> List[Scn]:
                "ack_async": rng.random() < 0.5, "ackable": rng.random() < 0.9,
                "backend_suspend": rng.random() < 0.3, "mws": mws, "propagate": rng.random() < 0.6,
                "msgs": _msgs(rng, M, ["valid"] * 9 + ["malformed"], ["ta0", "ta0", "ts0"], instant_p=0.3,
-                             outcomes=["ret", "exc", "base", "nores", "cerr"], timeout_p=0.3, savefail_p=0.3, ackfail_p=0.1, dup_p=0.25)}
+                             outcomes=["ret", "exc", "base", "nores", "cerr", "falsy"], timeout_p=0.3, savefail_p=0.3, ackfail_p=0.1, dup_p=0.25)}
         steps: List[Any] = [["arrive", M]]
         for _ in range(rng.randint(0, 10)):
             r = rng.random()
             if r < 0.45:
                 steps.append(["gate_any", rng.randint(0, 4)])
             elif r < 0.8:
-                steps.append(["fin_any", rng.randint(0, 3), rng.choice(["ret", "exc", "base", "nores", "cerr"])])
+                steps.append(["fin_any", rng.randint(0, 3), rng.choice(["ret", "exc", "base", "nores", "cerr", "falsy"])])
             else:
                 steps.append(["adv_rel", rng.choice([1, 2, 5])])
         steps += EPILOGUE_CLEAN if rng.random() < 0.8 else []
@@ -234,7 +234,7 @@ def gen_pipe_enum() -> Iterator[Scn]:
     """C02/C07: systematic ack type x ack style x outcome x backend failure x 0..1 mw, two messages."""
     for ack, aasync, oc, sf, mw, task in itertools.product(
             ["default", "when_received", "when_executed", "when_saved"], [False, True],
-            ["ret", "exc", "base", "nores", "timeout"], [False, True], [0, 1, 2], ["ta0", "ts0"]):
+            ["ret", "exc", "base", "nores", "timeout", "falsy"], [False, True], [0, 1, 2], ["ta0", "ts0"]):
         if task == "ts0" and oc == "timeout":
             continue
         m1: Dict[str, Any] = {"task": task, "savefail": sf}
